@@ -1,0 +1,33 @@
+//! Verification hooks (cargo feature `verif`, off by default).
+//!
+//! This module contains no logic: it only re-exports crate-private items so that an external
+//! monitoring harness can build the very verification tasks, portfolios and prover plumbing
+//! that the `anthem` binary uses, and observe what they produce.
+
+pub use crate::{
+    breaking::fol::sigma_0::ht::{
+        break_equivalences_annotated_formula, break_equivalences_formula,
+        break_equivalences_theory,
+    },
+    command_line::{
+        arguments::{Decomposition, FormulaRepresentation},
+        files::Files,
+    },
+    simplifying::fol::sigma_0::{classic::CLASSIC, ht::HT, intuitionistic::INTUITIONISTIC},
+    verifying::{
+        outline::{GeneralLemma, ProofOutline, ProofOutlineError, ProofOutlineWarning},
+        problem::{AnnotatedFormula, Interpretation, Problem, Role},
+        prover::{
+            Failure, Prover, Report, Status, StatusExtractionError, Success,
+            vampire::{Vampire, VampireError, VampireOutput, VampireReport},
+        },
+        task::{
+            Task,
+            external_equivalence::{
+                ExternalEquivalenceTask, ExternalEquivalenceTaskError,
+                ExternalEquivalenceTaskWarning,
+            },
+            strong_equivalence::{StrongEquivalenceTask, StrongEquivalenceTaskError},
+        },
+    },
+};
